@@ -11,13 +11,16 @@
     store to an owned field stores a locally allocated object, a write-only attribute has 0 reads, or
   * it is listed below under a NAMED CLAUSE: a recorded defect, not an exemption by argument.
 
-  Round 2: the former prose allow-list (14 entries) is gone.  13 of its rows now carry a checked reason
-  (12) or are accepted by the discipline itself (1: `WrapMeta.__call__`, whose `new_obj` the scanner now
-  follows through `tree_unflatten` to `object.__new__`).  The remaining row, `Identity.to`
-  (`self.device = device`), has NO valid reason — the attribute `device` is read all over the library, and
-  the old prose reason ("the NumPy backend has the single device None, so the store never changes the
-  value") is false: `Identity((4,4), float64).to('cpu')` changes the receiver's `device` from `None` to
-  `'cpu'`.  It is the named clause `identity-to-mutates-receiver`.
+  Round 2: the former prose allow-list (14 entries) is gone.  12 of its rows now carry a checked reason,
+  1 is accepted by the discipline itself (`WrapMeta.__call__`, whose `new_obj` the scanner now follows
+  through `tree_unflatten` to `object.__new__`).  The 14th, `Identity.to` (`self.device = device`), had
+  NO valid reason — `device` is read all over the library and the old prose reason ("the NumPy backend has
+  the single device None, so the store never changes the value") was false:
+  `Identity((4,4), float64).to('cpu')` changed the receiver's `device` from `None` to `'cpu'`.  It was the
+  named clause `identity-to-mutates-receiver` until /repo commit aef9931 repaired it (`Identity.to` builds
+  a new Identity; the store `out.device = device` goes to that fresh object and obeys the discipline).
+  The clause list is EMPTY now: every library row is accepted by the discipline or by a checked reason
+  (`C18_clause_rows`).
 -/
 import ColaVerif.Model.Heap
 
@@ -30,11 +33,9 @@ structure Allow where
   reason : String
 
 /-- rows accepted under a NAMED CLAUSE (a recorded / provisional finding of the check, reproduced by the
-    harness on a concrete input), never by an argument in prose -/
-def allowList : List Allow := [
-  { file := "ops/operators.py", func := "Identity.to", target := "self.device",
-    reason := "clause identity-to-mutates-receiver: `Identity.to(device)` stores the device into the RECEIVER and returns it (every other kind returns a new operator through flatten/unflatten); witness `I = Identity((4, 4), float64); I.to('cpu')` changes `I.device` from None to 'cpu'" }
-]
+    harness on a concrete input), never by an argument in prose.  Empty since `Identity.to` was repaired
+    (/repo aef9931). -/
+def allowList : List Allow := []
 
 /-- the row is one of the named-clause rows -/
 def Site.byClause (s : Site) : Bool :=
